@@ -557,9 +557,32 @@ func (r *Runner) stepMultiDelete(op Op) []Disc {
 		Objects []obj    `xml:"Object"`
 	}
 	dr := delReq{Quiet: op.Quiet}
+	// resolve the symbolic version references; an entry naming the same (key, version) as an
+	// earlier one is dropped (what a request with such a duplicate means is not stated)
+	{
+		var keys []string
+		var refs []int
+		seen := map[string]bool{}
+		for i, k := range op.Keys {
+			ref := -1000000
+			if i < len(op.VRefs) {
+				ref = op.VRefs[i]
+			}
+			id := ""
+			if ref >= 0 {
+				id = r.VersionID(op.B, k, ref)
+			}
+			if seen[k+"\x00"+id] {
+				continue
+			}
+			seen[k+"\x00"+id] = true
+			keys, refs = append(keys, k), append(refs, ref)
+		}
+		op.Keys, op.VRefs = keys, refs
+	}
 	ids := make([]string, len(op.Keys))
 	for i, k := range op.Keys {
-		if i < len(op.VRefs) && op.VRefs[i] >= 0 {
+		if op.VRefs[i] >= 0 {
 			ids[i] = r.VersionID(op.B, k, op.VRefs[i])
 		}
 		dr.Objects = append(dr.Objects, obj{Key: k, VersionId: ids[i]})
